@@ -859,6 +859,56 @@ func checkFailureBranchKv(p *Prog, r *Roles, res *Result, f *ssa.Function, casFa
 		if !onFail {
 			continue
 		}
+		// the failure branch may be carried out by a helper: everything that helper does happens after the failed write
+		for _, ins := range b.Instrs {
+			hc, ok := ins.(*ssa.Call)
+			if !ok {
+				continue
+			}
+			h := hc.Common().StaticCallee()
+			if h == nil || h.Blocks == nil || h.Pkg != f.Pkg || h == f {
+				continue
+			}
+			kst := kvType.Underlying().(*types.Struct)
+			for _, hb := range h.Blocks {
+				for _, hi := range hb.Instrs {
+					al, ok := hi.(*ssa.Alloc)
+					if !ok || !types.Identical(al.Type(), types.NewPointer(kvType)) {
+						continue
+					}
+					n++
+					construct := fmt.Sprintf("%s: key-value of the failed-condition answer #%d", funcName(f), n)
+					why := ""
+					for i := 0; i < kst.NumFields(); i++ {
+						fname := kst.Field(i).Name()
+						if fname != "Value" && fname != "Revision" {
+							continue
+						}
+						fv, ok := p.builtFieldValue(al, kst.Field(i))
+						if !ok {
+							continue
+						}
+						rc, _, isRead := extractOf(p.resolveDeep(fv))
+						switch {
+						case isRead && rc.Parent() == h:
+							// a read made by the helper itself: after the failed write; it must read the latest state
+							for _, a := range rc.Common().Args {
+								if bt, ok := a.Type().Underlying().(*types.Basic); ok && bt.Kind() == types.Uint64 && !isZeroConst(a) {
+									why = "field " + fname + " comes from a re-read that is pinned to a revision instead of reading the latest state"
+								}
+							}
+						default:
+							why = "field " + fname + " of the answer built in " + funcName(h) + " is not taken from a read made by that helper after the failed write"
+						}
+					}
+					if why == "" {
+						res.ok("C16-R5", construct, p.pos(al.Pos()), "built by "+funcName(h)+", called on the failure branch, from its own read of the latest state")
+					} else {
+						res.bad("C16-R5", construct, p.pos(al.Pos()), "the failure branch answers with a key-value read before the write was attempted: after a concurrent update it reports a stale value with the caller's own expected revision, which etcd can never answer ("+why+")")
+					}
+				}
+			}
+		}
 		for _, ins := range b.Instrs {
 			// a key-value literal, or the call of a local builder of key-values
 			kvVal, isVal := ins.(ssa.Value)
